@@ -21,6 +21,9 @@ structure GoodOrders (O : Orders) : Prop where
   chDiffDifference : O.chDiffDifference = [.sendOut, .dispatch, .storeChannelPts, .boxSetPts, .recurse]
   chDiffEmpty : O.chDiffEmpty = [.storeChannelPts, .boxSetPts]
   chDiffTooLong : O.chDiffTooLong = [.tooLongCb, .storeChannelPts, .boxSetPts]
+  diffGuard : O.diffGuard = [0, 1, 2]
+  sliceGuard : O.sliceGuard = [0, 1, 2]
+  chDiffGuard : O.chDiffGuard = [0, 2]
   applyPtsBreak : O.applyPtsBreak = false
   chApplyPtsBreak : O.chApplyPtsBreak = false
   ownDirect : O.ownDirect = true
@@ -91,7 +94,7 @@ structure MInv (O : Orders) (log : List Entry) (keys : List Nat) (org start : Na
   q0 : m.w.q0 = org 1
   c0 : ∀ c, 2 + c ∈ keys → m.w.chanInit c = org (2 + c)
   queues : ∀ q ∈ m.queues, 2 + q.1 ∈ keys ∧ ∀ it ∈ q.2, ItemOK log q.1 it
-  internal : m.internal = []
+  internal : ∀ cont ∈ m.internal, ∀ e ∈ cont, e ∈ log
 
 /-- Facts that only depend on parts of the manager that `seqOp` does not touch. -/
 theorem seqOp_w (O : Orders) (m : Mgr) (k : Nat) (op : SOp) : (m.seqOp O k op).w = m.w := by
@@ -208,6 +211,13 @@ theorem minv_pushChan {O log keys org start m} (h : MInv O log keys org start m)
   · simp only [hc, if_false]
     exact this
 
+theorem neutral_restore (log : List Entry) (keys : List Nat) (p q : Int) : Neutral log keys [.apiRestore p q] := by
+  intro k _; simp [projSeq]
+
+theorem minv_emit_neutral {O log keys org start m} (h : MInv O log keys org start m) (evs : List Event)
+    (hn : Neutral log keys evs) : MInv O log keys org start (m.emit evs) :=
+  ⟨coh_emit_neutral h.coh evs hn, h.p0, h.q0, h.c0, h.queues, h.internal⟩
+
 theorem kind_seqKey0 (e : Entry) (h : e.kind = .msg ∨ e.kind = .other) : e.seqKey = some 0 := by
   rcases h with h | h <;> simp [Entry.seqKey, h]
 theorem kind_seqKey1 (e : Entry) (h : e.kind = .qts ∨ e.kind = .qother) : e.seqKey = some 1 := by
@@ -225,8 +235,16 @@ theorem minv_route {O log keys org start m} (hO : GoodOrders O) (hS : Scn log ke
   | other => exact minv_push hO hS h 0 e ⟨kind_seqKey0 e (Or.inr hk), Or.inl he⟩
   | qts => exact minv_push hO hS h 1 e ⟨kind_seqKey1 e (Or.inl hk), Or.inl he⟩
   | qother => exact minv_push hO hS h 1 e ⟨kind_seqKey1 e (Or.inr hk), Or.inl he⟩
-  | chmsg => exact minv_pushChan h e.chan (.upd e) ⟨kind_seqKeyCh e (Or.inl hk), Or.inl he⟩
-  | chother => exact minv_pushChan h e.chan (.upd e) ⟨kind_seqKeyCh e (Or.inr (Or.inl hk)), Or.inl he⟩
+  | chmsg =>
+    simp only
+    split
+    · exact minv_emit_neutral h _ (neutral_restore log keys _ _)
+    · exact minv_pushChan h e.chan (.upd e) ⟨kind_seqKeyCh e (Or.inl hk), Or.inl he⟩
+  | chother =>
+    simp only
+    split
+    · exact minv_emit_neutral h _ (neutral_restore log keys _ _)
+    · exact minv_pushChan h e.chan (.upd e) ⟨kind_seqKeyCh e (Or.inr (Or.inl hk)), Or.inl he⟩
   | plain => exact h
   | aff => exact h
   | chaff => exact h
@@ -278,10 +296,6 @@ theorem neutral_plain (log : List Entry) (hu : UniqueIds log) (keys : List Nat) 
     simp [(hes e he).2]
   rw [this]; rfl
 
-theorem minv_emit_neutral {O log keys org start m} (h : MInv O log keys org start m) (evs : List Event)
-    (hn : Neutral log keys evs) : MInv O log keys org start (m.emit evs) :=
-  ⟨coh_emit_neutral h.coh evs hn, h.p0, h.q0, h.c0, h.queues, h.internal⟩
-
 theorem minv_applyCombined {O log keys org start m} (hO : GoodOrders O) (hS : Scn log keys org)
     (h : MInv O log keys org start m) (cont : List Entry) (hc : ∀ e ∈ cont, e ∈ log) :
     MInv O log keys org start (m.applyCombined O cont) := by
@@ -299,5 +313,36 @@ theorem minv_applyCombined {O log keys org start m} (hO : GoodOrders O) (hS : Sc
     refine ⟨hs e hm, ?_⟩
     have : e.kind = .plain := by simpa using hk
     simp [Entry.seqKey, this]
+
+/-- Routing updates that are not of the common sequences leaves the pts and qts boxes alone. -/
+theorem route_common_boxes (O : Orders) (m : Mgr) (e : Entry) (he : ownCommon e = false) :
+    (m.route O e).pts = m.pts ∧ (m.route O e).qts = m.qts := by
+  unfold Mgr.route
+  cases hk : e.kind <;> simp [ownCommon, hk] at he <;> simp only
+  all_goals first
+    | exact ⟨rfl, rfl⟩
+    | (split <;> exact ⟨rfl, rfl⟩)
+    | simp
+
+theorem applyCombined_common_boxes (O : Orders) (m : Mgr) (cont : List Entry) (hc : ∀ e ∈ cont, ownCommon e = false) :
+    (m.applyCombined O cont).pts = m.pts ∧ (m.applyCombined O cont).qts = m.qts := by
+  unfold Mgr.applyCombined
+  have hs : ∀ e ∈ sortUpdates cont, ownCommon e = false := fun e he => hc e ((mem_sortUpdates cont e).1 he)
+  have h1 : ∀ (l : List Entry) (m' : Mgr), (∀ e ∈ l, ownCommon e = false) →
+      (l.foldl (fun m e => m.route O e) m').pts = m'.pts ∧ (l.foldl (fun m e => m.route O e) m').qts = m'.qts := by
+    intro l
+    induction l with
+    | nil => intro m' _; exact ⟨rfl, rfl⟩
+    | cons a t ih =>
+      intro m' hl
+      simp only [List.foldl]
+      have ha := route_common_boxes O m' a (hl a (List.mem_cons_self ..))
+      have := ih (m'.route O a) (fun e he => hl e (List.mem_cons_of_mem _ he))
+      exact ⟨this.1.trans ha.1, this.2.trans ha.2⟩
+  have h2 := h1 (sortUpdates cont) m hs
+  simp only
+  split
+  · exact h2
+  · exact h2
 
 end TdModel.C02Core
